@@ -430,12 +430,25 @@ def streams(rng, tier):
     stb = Stream("builtin-encode-impls", "hcore", bops, model_ops=bmops, judge=lambda op, impl, model, spec: "ok" if impl == model else "violation",
                  rule="tenc <type> <value> for every registered built-in type (C01 corpus): implementation bytes == model bytes (= encPref of the data-model value by builtin_pref)")
     stb.shrinkable = False
+    # the same OBJECT encoded again after failed attempts: same bytes (values with interior mutability could keep a trace of an attempt)
+    rops = ["tretry" + o[4:] for o in bops]
+    def judge_retry(op, impl, model, spec):
+        if not impl.startswith("same "):
+            return "ok" if impl.startswith("err ") and model.startswith("err ") else "violation"
+        return "ok" if impl[5:] == model.split(" ")[0] else "violation"
+    str_ = Stream("same-object-again", "hcore", rops, model_ops=bmops, judge=judge_retry,
+                  rule="tretry <type> <value>: to_vec of one object, then encode into slices ending after 0..23 and len-1 bytes (each refused), to_vec and "
+                       "minicbor::len again after each: always the first bytes (= the model's), always the same length")
+    str_.shrinkable = False
     # determinism: the same ops a second time must give the same bytes
     from verifkit.props import C13
-    return [st, sti, stt, stb, balanced_stream(rng, tier), balanced_split_stream(rng, tier), C13.tovec_stream(rng, tier), Stream("encoder-methods-again", "hcore", ops[::7], rule="every 7th op of the first stream, run again in a fresh process")]
+    return [st, sti, stt, stb, str_, balanced_stream(rng, tier), balanced_split_stream(rng, tier), C13.tovec_stream(rng, tier), Stream("encoder-methods-again", "hcore", ops[::7], rule="every 7th op of the first stream, run again in a fresh process")]
 
 
 def replay_streams(rp):
+    if rp["original_op"].startswith("tretry"):
+        return [Stream("replay", "hcore", [rp["original_op"]], model_ops=[rp.get("model_op") or "nop"],
+                       judge=lambda op, impl, model, spec: "ok" if impl.startswith("same ") and impl[5:] == model.split(" ")[0] else "violation")]
     op = rp.get("original_op") or rp["op"]
     if op.startswith("tokenc "):
         return [Stream("replay", "hcore", [op], spec_ops=["balanced " + op[7:]], judge=judge_balanced)]
